@@ -317,6 +317,15 @@ func closerManager(s *simrt.Sim) {
 			s.Fail("addcloser", err.Error())
 		}
 	}
+	// Add on the closer manager: before Run it must be accepted and the runner started
+	var extra *unit
+	if s.Choose(3, "extraRunner") == 0 {
+		extra = mkUnit(s, 9, false)
+		if err := m.Add(extra.runner(s)); err != nil {
+			s.Fail("add-before-run", fmt.Sprintf("Add before Run returned %v", err))
+		}
+		runners = append(runners, extra)
+	}
 	scenario := s.Choose(5, "scenario") // 0 run to completion, 1 Close during run, 2 Close before Run, 3 two Closes during, 4 AddCloser during
 	var runInv, runRet uint64
 	var runErr error
@@ -481,12 +490,13 @@ func closerManager(s *simrt.Sim) {
 	} else if fatal > 0 {
 		s.Fail("fatal-spurious", "fatal-shutdown fired without a grace period")
 	}
-	// afterwards: Close again returns the same error at once; Run is refused
+	// afterwards: Close again returns the same error at once; Run and Add are refused
 	var c2 error
-	var r2 error
+	var r2, a2 error
 	s.Go("again", func() {
 		c2 = m.Close()
 		r2 = m.Run(context.Background())
+		a2 = m.Add(func(context.Context) error { return nil })
 	})
 	if !s.Join(10*time.Second, "again") {
 		s.Fail("late-close-hang", "Close after shutdown did not return\n"+s.Dump())
@@ -497,6 +507,9 @@ func closerManager(s *simrt.Sim) {
 	}
 	if !errors.Is(r2, concurrency.ErrManagerAlreadyStarted) {
 		s.Fail("second-run", fmt.Sprintf("second Run returned %v", r2))
+	}
+	if !errors.Is(a2, concurrency.ErrManagerAlreadyStarted) {
+		s.Fail("late-add", fmt.Sprintf("Add after the manager ran returned %v", a2))
 	}
 	s.WaitNoLive("", time.Second)
 }
